@@ -193,7 +193,18 @@ def step (st : State) (w : List String) : State × String :=
         (st, s!"down=1 writes=1 dl={ingressDeadline i strict rt (rt + age) st.qto - anchor}")
       else (st, "down=0 writes=0 dl=-")
     | _, _ => (st, "bad-op")
+  | ["ing", "pipeline", _slow, n] =>
+    match n.toNat? with
+    | some n => (st, "budgets=" ++ ",".intercalate (List.replicate n "full"))
+    | none => (st, "bad-op")
   | ["ing", "end"] => (st, "closed")
+  | ["tcpclass", "new"] => (st, "ok")
+  | ["tcpclass", l] =>
+    match l.toNat? with
+    | some l =>
+      let c := if tcpLarge 2048 l then "large" else "small"
+      (st, s!"token={c} slab={c}")
+    | none => (st, "bad-op")
   | ["inl", a, b, c, d] =>
     match parseBool a, parseBool b, parseBool c, parseBool d with
     | some wrote, some handoff, some panics, some replayWrote =>
